@@ -93,3 +93,180 @@ def insn_fields(v):
     """fields of an ebpf::Insn aggregate as 64-bit signed-extended terms"""
     opc, dst, src, off, imm = [x.t for x in v.f]
     return dict(opc=opc, dst=ZeroExt(56, dst), src=ZeroExt(56, src), off=SignExt(48, off), imm=SignExt(32, imm))
+
+
+# ------------------------------------------------------------------------------------------ disassembler
+def decode_template(tpl, args):
+    """format template bytes (rustc's compact encoding) + argument list -> tokens: ('lit', text) | ('arg', trait, alternate, value)
+    layout seen in this toolchain: 0x00 end; 0x01..0x7f literal of that many bytes; 0xc0 next argument, default options;
+    0xc1 + 4 option bytes (LE u32, bit 23 = '#' alternate) next argument.  Anything else -> Unsupported (inconclusive)."""
+    b = [ord(ch) for ch in tpl]; i = 0; toks = []; ai = 0
+    while i < len(b):
+        c = b[i]
+        if c == 0: break
+        if c < 0x80:
+            toks.append(('lit', ''.join(chr(x) for x in b[i + 1:i + 1 + c]))); i += 1 + c
+        elif c == 0xc0:
+            if ai >= len(args): raise Unsupported('format template: more placeholders than arguments')
+            toks.append(('arg', args[ai][0], False, args[ai][1])); ai += 1; i += 1
+        elif c == 0xc1:
+            opt = b[i + 1] | (b[i + 2] << 8) | (b[i + 3] << 16) | (b[i + 4] << 24)
+            known = 0x60800020
+            if opt & ~0x00800000 != known & ~0x00800000: raise Unsupported(f'format template: unknown placeholder options {opt:#x}')
+            toks.append(('arg', args[ai][0], bool(opt & 0x00800000), args[ai][1])); ai += 1; i += 5
+        else: raise Unsupported(f'format template: unknown control byte {c:#x}')
+    if ai != len(args): raise Unsupported('format template: unused arguments')
+    return toks
+
+
+def string_tokens(v):
+    """tokens of a String value built by format!/to_string"""
+    if isinstance(v, Opaque) and v.tag == 'string' and v.args:
+        a = v.args[0]
+        if isinstance(a, Str): return [('lit', a.s)]
+        if isinstance(a, Opaque) and a.tag == 'fmtargs':
+            tpl, lst = a.args
+            if tpl is None or lst is None: raise Unsupported('format arguments not captured')
+            return decode_template(tpl.s, lst)
+    raise Unsupported(f'string value {v}')
+
+
+def arg_value(trait, alt, val):
+    """numeric value the assembler's integer/register grammar reads back from a printed argument (64-bit term), or a str for names"""
+    if isinstance(val, Str): return val.s
+    if not isinstance(val, V): raise Unsupported(f'format argument {val}')
+    w, sg = mirsym.bvw(val.ty)
+    if trait == 'new_display':
+        if sg: return ('signed-decimal', SignExt(64 - w, val.t) if w < 64 else val.t)
+        return ZeroExt(64 - w, val.t) if w < 64 else val.t
+    if trait == 'new_lower_hex':
+        if not alt: raise Unsupported('hex argument without 0x prefix')
+        return ZeroExt(64 - w, val.t) if w < 64 else val.t          # {:#x} prints the two's complement bits at the operand width
+    raise Unsupported('format trait ' + trait)
+
+
+def parse_operand_text(toks):
+    """documented operand grammar applied to a token sequence: returns (mnemonic parts, [operands]) with operands as
+    ('reg', v) | ('int', v) | ('mem', reg, off); sign characters apply by (wrapping) negation"""
+    items = []
+    for t in toks:
+        if t[0] == 'lit': items += list(t[1])
+        else: items.append(('A',) + t[1:])
+    i = 0; n = len(items); mn = []
+    while i < n and items[i] != ' ':
+        it = items[i]
+        mn.append(it if isinstance(it, str) else arg_value(*it[1:])); i += 1
+    ops = []
+    def num(j):
+        sign = 1
+        if j < n and items[j] in ('+', '-'): sign = -1 if items[j] == '-' else 1; j += 1
+        if j >= n or isinstance(items[j], str): raise Unsupported('operand text: number expected')
+        v = arg_value(*items[j][1:])
+        if isinstance(v, tuple): v = v[1]
+        return (-v if sign < 0 else v), j + 1
+    while i < n:
+        while i < n and items[i] == ' ': i += 1
+        if i >= n: break
+        it = items[i]
+        if it == 'r':
+            v = arg_value(*items[i + 1][1:]); ops.append(('reg', v)); i += 2
+        elif it == '[':
+            if items[i + 1] != 'r': raise Unsupported('operand text: [ not followed by a register')
+            rg = arg_value(*items[i + 2][1:]); j = i + 3
+            off = BitVecVal(0, 64)
+            if items[j] != ']': off, j = num(j)
+            if items[j] != ']': raise Unsupported('operand text: ] expected')
+            ops.append(('mem', rg, off)); i = j + 1
+        else:
+            v, i = num(i); ops.append(('int', v))
+        if i < n:
+            if items[i] != ',': raise Unsupported(f'operand text: , expected, found {items[i]!r}')
+            i += 1
+    return mn, ops
+
+
+class Disasm:
+    """one iteration of disassembler::to_insn_vec from an arbitrary index (MIR), HLInsn captured at Vec::push"""
+    def __init__(self, mir, types, timeout):
+        self.mir = mir; self.types = types; self.f = mir.funcs['disassembler::to_insn_vec']
+        self.eng = mirsym.Engine(mir, types, timeout); self.eng.summarize = {'get_insn'}
+        self.prog_base, self.prog_len = BitVec('prog_base', 64), BitVec('prog_len', 64); self.M0 = Array('M0', BitVecSort(64), BitVecSort(8))
+        heads = self.f.loop_heads()
+        if len(heads) != 1: raise Unsupported(f'to_insn_vec: loops {heads}')
+        self.head = heads[0]; self.ip = self.f.local_of('insn_ptr')
+        e = self.eng
+        e.add_stub(r'Vec::push$', lambda en, st, fr, callee, args, R: (st.events.append(('push', args[1])), R(Agg([], '()')))[1])
+        e.add_stub(r'^log::', lambda en, st, fr, callee, args, R: R(V(BitVecVal(0, 64), 'usize')) if 'max_level' in callee else R(Agg([], '()')))
+        e.add_stub(r'Level as PartialOrd', lambda en, st, fr, callee, args, R: R(V(BoolVal(False), 'bool')))      # logging disabled: formatting a warning is not the subject
+        self._head = None
+    def base(self):
+        from z3 import BVAddNoOverflow, URem
+        return [BVAddNoOverflow(self.prog_base, self.prog_len, False), self.prog_base != 0, URem(self.prog_len, 8) == 0, self.prog_len != 0, ULE(self.prog_len, 1 << 40)]
+    def head_state(self):
+        if self._head is None:
+            st = mirsym.State(); st.mem = self.M0; st.pc = list(self.base())
+            fr = mirsym.Frame(self.f); fr.tag = 'top'; st.frames.append(fr)
+            fr.locals[self.f.params[0][0]] = Slice(self.prog_base, self.prog_len)
+            k = (self.f.name, self.head); st.visits[k] = 1
+            ps = [p for p in self.eng.explore(st, cuts={k}) if p.kind == 'cut']
+            if not ps: raise Unsupported('to_insn_vec: loop head not reached')
+            self._head = ps[0].st
+        return self._head
+    def step(self, opc):
+        st = self.head_state().fork(); fr = st.frames[0]; self.eng.memo.clear()
+        st.pc = list(self.base()); st.log = []; st.events = []; st.visits = {}
+        P = type('P', (), {})(); P.pc = BitVec('pc', 64)
+        for l in self.f.assigned_in(self.f.loop_body(self.head)): fr.locals.pop(l, None)
+        fr.locals[self.ip] = V(P.pc, 'usize')
+        resl = self.f.local_of('res')
+        fr.locals[resl] = Slice(BitVec('res.ptr', 64), BitVec('res.len', 64), 'u8')
+        P.opc = BitVecVal(opc, 8); P.regbyte = BitVec('regbyte', 8); P.off = BitVec('off', 16); P.imm = BitVec('imm', 32)
+        P.nopc = BitVec('nopc', 8); P.nregbyte = BitVec('nregbyte', 8); P.noff = BitVec('noff', 16); P.next_imm = BitVec('next_imm', 32)
+        a0 = self.prog_base + 8 * P.pc; bts = []
+        for t in (P.opc, P.regbyte, P.off, P.imm, P.nopc, P.nregbyte, P.noff, P.next_imm):
+            for i in range(t.size() // 8): bts.append(Extract(8 * i + 7, 8 * i, t) if t.size() > 8 else t)
+        st.pc += [Select(self.M0, a0 + i) == b for i, b in enumerate(bts)]
+        st.aux['overlay'] = mirsym.Engine.make_overlay(a0, bts)
+        P.dst = ZeroExt(60, Extract(3, 0, P.regbyte)); P.src = ZeroExt(60, Extract(7, 4, P.regbyte)); P.n = self.prog_len / 8
+        k, info = spec.classify(opc) or (None, None)
+        st.pc += [ULT(P.pc, P.n)]
+        if k == 'lddw': st.pc.append(ULT(P.pc + 1, P.n))            # wide loads are followed by their second half (statement's premise)
+        if k == 'call': st.pc.append(ULE(P.src, 1))                 # call kinds 0/1 (statement's premise)
+        paths = self.eng.explore(st, cuts={(self.f.name, self.head)})
+        return P, paths
+
+
+def expected_name(opc):
+    k, i = spec.classify(opc)
+    sz = {1: 'b', 2: 'h', 4: 'w', 8: 'dw'}
+    if k == 'alu': return f"{i['op']}{i['w']}"
+    if k == 'endian': return 'be' if i['be'] else 'le'
+    if k == 'jcond': return i['op'] + ('32' if i['w'] == 32 else '')
+    if k == 'ldabs': return 'ldabs' + sz[i['size']]
+    if k == 'ldind': return 'ldind' + sz[i['size']]
+    if k == 'ldx': return 'ldx' + sz[i['size']]
+    if k == 'st': return 'st' + sz[i['size']]
+    if k == 'stx': return 'stx' + sz[i['size']]
+    if k == 'xadd': return 'stxxadd' + sz[i['size']]
+    return {'lddw': 'lddw', 'ja': 'ja', 'call': 'call', 'exit': 'exit', 'tail_call': 'tail_call'}[k]
+
+
+def expected_operands(opc, P):
+    """operands the statement says the text renders, from the encoded fields (64-bit terms; immediates as the assembler
+    would read the printed hexadecimal: the two's complement bits, zero-extended)"""
+    k, i = spec.classify(opc)
+    dst, src = P.dst, P.src; off = SignExt(48, P.off); immz = ZeroExt(32, P.imm)
+    if k == 'alu':
+        if i['op'] == 'neg': return [('reg', dst)]
+        return [('reg', dst), ('reg', src)] if i['x'] else [('reg', dst), ('int', immz)]
+    if k == 'endian': return [('reg', dst)]
+    if k == 'lddw': return [('reg', dst), ('int', Concat(P.next_imm, P.imm))]
+    if k == 'ldabs': return [('int', immz)]
+    if k == 'ldind': return [('reg', src), ('int', immz)]
+    if k == 'ldx': return [('reg', dst), ('mem', src, off)]
+    if k == 'st': return [('mem', dst, off), ('int', immz)]
+    if k in ('stx', 'xadd'): return [('mem', dst, off), ('reg', src)]
+    if k == 'ja': return [('int', off)]
+    if k == 'jcond': return [('reg', dst), ('reg', src), ('int', off)] if i['x'] else [('reg', dst), ('int', immz), ('int', off)]
+    if k == 'call': return [('int', immz)]
+    return []
